@@ -36,6 +36,8 @@ type operand struct {
 	text string
 }
 
+var textPool = []string{"x", "y", "X", "δ", "Δ", "xy", "xY", ""}
+
 func symOperand(name string, kinds int) (operand, r.Element) {
 	k := zv.Choose(kinds)
 	switch k {
@@ -46,9 +48,9 @@ func symOperand(name string, kinds int) (operand, r.Element) {
 		b := zv.Bool(name)
 		return operand{kind: kBool, b: b}, value.NewBool(b)
 	case kText:
-		c := zv.Rune(name)
-		zv.Assume(c == 'x' || c == 'y')
-		s := string([]rune{c})
+		// texts that differ in nothing, in a letter, in letter case only
+		// (Latin, Greek), in length; and the empty text
+		s := textPool[zv.Choose(len(textPool))]
 		return operand{kind: kText, text: s}, value.NewString(s)
 	}
 	return operand{kind: kNull}, value.NewNull()
